@@ -927,7 +927,7 @@ func vC20Enumerate(c *vh.Case, p *vC20Pool, cfg vC20Cfg, entries []vjds.Entry, a
 	}
 	for _, n := range bounds {
 		seen := map[string]bool{}
-		prefixOK := true
+		prefixContOK, prefixSizeOK := true, true // verdicts of the prefix model at this point
 		for pi, pol := range vC20Policies {
 			disk, fp, staleSize := vC20CrashDisk(cfg, entries, n, cover, pol.Keep(c.R))
 			if pi > 0 && (fp == "" || seen[fp]) {
@@ -948,7 +948,7 @@ func vC20Enumerate(c *vh.Case, p *vC20Pool, cfg vC20Cfg, entries []vjds.Entry, a
 					c.FailSig("crash-reopen", "crash/reopen-error-"+model, "%s: reopening fails: %v", where, err)
 				}
 				if pi == 0 {
-					prefixOK = false
+					prefixContOK, prefixSizeOK = false, false
 				}
 				continue
 			}
@@ -961,7 +961,7 @@ func vC20Enumerate(c *vh.Case, p *vC20Pool, cfg vC20Cfg, entries []vjds.Entry, a
 			c.Clause("crash-size")
 			if !ok {
 				sig := "crash/contents-" + model
-				if pi > 0 && !prefixOK {
+				if pi > 0 && !prefixContOK {
 					sig = "crash/contents-prefix-model" // same point already fails without losing any write
 				}
 				if !reported[sig] {
@@ -977,21 +977,21 @@ func vC20Enumerate(c *vh.Case, p *vC20Pool, cfg vC20Cfg, entries []vjds.Entry, a
 				}
 				sig := "crash/size-" + model
 				switch {
-				case pi > 0 && prefixOK && staleSize:
+				case pi > 0 && prefixSizeOK && staleSize:
 					// finding #12: the unsynced deletion of the persisted size is lost while later writes survive
 					sig = "crash/size-stale-subset-model"
 				case known != "":
 					sig = known
-				case pi > 0 && !prefixOK:
+				case pi > 0 && !prefixSizeOK:
 					sig = "crash/size-prefix-model" // the same point already fails without losing any write
 				}
 				if !reported[sig] {
 					reported[sig] = true
-					c.FailSig("crash-size", sig, "%s: reopened keystore reports Size()=%d but holds %d keys %s (prefix model at the same point: ok=%v)\njournal tail:\n%s", where, size, len(cont), p.short(cont.sorted()), prefixOK, vC20Tail(entries, n, 14))
+					c.FailSig("crash-size", sig, "%s: reopened keystore reports Size()=%d but holds %d keys %s (prefix model at the same point: ok=%v)\njournal tail:\n%s", where, size, len(cont), p.short(cont.sorted()), prefixSizeOK, vC20Tail(entries, n, 14))
 				}
 			}
 			if pi == 0 {
-				prefixOK = ok && sizeOK
+				prefixContOK, prefixSizeOK = ok, sizeOK
 			}
 			if ok && sizeOK && sample[n] && (pi == 0 || pi == 1) {
 				vC20Continue(c, p, cfg, disk, u, where)
